@@ -3,6 +3,6 @@ from ._engine import engine_check
 
 
 def run(ctx):
-    return engine_check(ctx, "PropC04", [("disjoint", 4000, 100000)],
+    return engine_check(ctx, "PropC04", [("disjoint", 4000, 100000), ("create_then_rename_folder", 1000, 25000)],
                         "disjoint two-sided run rejected by the monitor (C04: merged tree = base + both sides' changes, no resurrection, no conflicted artefact)",
                         stream_b="C04", entry_predicates=True)
